@@ -214,7 +214,10 @@ pub fn run_sequence(start: u64, acts: &[Act], tally: &mut Tally) -> CaseResult {
                 }
             }
             _ => {
-                prev_offer = None;
+                // (answering a status request is no reason to forget a first offer)
+                if !(matches!(a, Act::StatReq(_)) && initiated.is_empty()) {
+                    prev_offer = None;
+                }
                 if !initiated.is_empty() && !checking {
                     fail!("initiated-without-token", "station initiated a telegram without holding the token: {}", ctx());
                 }
